@@ -264,6 +264,10 @@ func (it *Interp) runBlocks(fr *frameState, start *ssa.BasicBlock) Val {
 			if it.steps > it.opt.MaxSteps {
 				it.endPath(fmt.Sprintf("step budget %d exceeded", it.opt.MaxSteps), true)
 			}
+			if it.stepBudget > 0 && it.steps > it.stepBudget {
+				it.stepBudget = 0
+				it.violationNow("bounded-work", "the harness' step budget was exceeded in "+fr.fn.String()+" (work not proportional to the input)")
+			}
 			switch x := ins.(type) {
 			case *ssa.If:
 				c := it.get(fr, x.Cond).(Bool)
